@@ -50,8 +50,11 @@ fn patch_names() -> Vec<Vec<u8>> {
 }
 
 fn hash_str(rng: &mut Rng) -> String {
-    match rng.below(5) {
+    match rng.below(7) {
         0 => "abc".into(),
+        // a recorded hash is an opaque token: no word and no letter case is special
+        5 => rng.pick(&["IGNORE", "ignore", "none", "-", "SKIP", "null", "ABCDEF0123456789", "53F5a0B", "x=y", "(h)"]).to_string(),
+        6 => "D41D8CD98F00B204E9800998ECF8427E".into(),
         1 => "d41d8cd98f00b204e9800998ecf8427e".into(),
         2 => "é".into(),
         3 => "0".into(),
@@ -146,6 +149,22 @@ fn build_calls(rng: &mut Rng) -> Vec<Vec<u8>> {
     // sometimes insert the same name twice (second replaces in place)
     if rng.chance(1, 5) && calls.len() > 1 {
         let c = calls[calls.len() - 1].clone();
+        calls.push(c);
+    }
+    // an entry whose FILEPATH (where it was hashed from) looks like the other kind of file
+    if rng.chance(1, 4) {
+        let (name, fp): (&[u8], &[u8]) = *rng.pick(&[(&b"libfoo-1.2-fix-build.diff"[..], &b"/distfiles/.incoming/patch-8f3a2c1.diff"[..]),
+            (b"patch-zz", b"/tmp/work/main.c.diff"), (b"emul-linux-patch-q", b"dl/file.bin"), (b"plain.tgz", b"x/patch-aa"), (b"sub/p.tgz", b"")]);
+        let mut c = vec![2u8];
+        c.extend(name);
+        c.push(0);
+        c.extend(fp);
+        c.push(0);
+        if name.starts_with(b"patch-") || name.starts_with(b"emul-") { c.push(b'-'); } else { c.extend(b"18446744073709551615"); }
+        c.push(0);
+        c.extend(DNAMES[rng.below(6)].as_bytes());
+        c.push(0);
+        c.extend(hash_str(rng).as_bytes());
         calls.push(c);
     }
     // ... or insert an earlier name again with OTHER values (an update in place), and set the
@@ -393,11 +412,13 @@ fn gen_c12(tier: &str, rng: &mut Rng, emit: &mut dyn FnMut(Op)) {
         big_with_marker(8192 - 3), big_with_marker(8192 - 6), big_with_marker(8192 - 1), big_with_marker(8192),
         big_with_marker(16384 - 4), big_with_marker(8192 - 7),
     ];
-    let names: [&[u8]; 8] = [b"c.tgz", b"b/c.tgz", b"a/b/c.tgz", b"patch-aa", b"sub/patch-ab", b"emul-linux-patch-a", b"d.tgz", b"patch-2.0.tar.gz"];
+    let names: [&[u8]; 11] = [b"c.tgz", b"b/c.tgz", b"a/b/c.tgz", b"patch-aa", b"sub/patch-ab", b"emul-linux-patch-a", b"d.tgz", b"patch-2.0.tar.gz",
+        b"foo-1.0/patch-1.0.1", b"x/y/emul-a-patch-b", b"patch-dir/c.tgz"];
     for _ in 0..(if thorough { 4000 } else { 350 }) {
         let content = rng.pick(&contents).clone();
         let name: &[u8] = *rng.pick::<&[u8]>(&names);
-        let is_patch = name.ends_with(b"patch-aa") || name.ends_with(b"patch-ab") || name.ends_with(b"patch-a");
+        let is_patch = name.ends_with(b"patch-aa") || name.ends_with(b"patch-ab") || name.ends_with(b"patch-a")
+            || name.ends_with(b"patch-1.0.1") || name.ends_with(b"patch-b");
         let plain = hashes(&content, false);
         let patch = hashes(&content, true);
         let right: Vec<&str> = if is_patch { patch.split(',').collect() } else { plain.split(',').collect() };
@@ -408,7 +429,9 @@ fn gen_c12(tier: &str, rng: &mut Rng, emit: &mut dyn FnMut(Op)) {
         let k = rng.range(0, 4);
         for &i in ds.iter().take(k) {
             let mut h = right[i].to_string();
-            match rng.below(8) {
+            match rng.below(10) {
+                8 => h = rng.pick(&["IGNORE", "ignore", "none", "SKIP", "-", "*"]).to_string(), // a word instead of a hash
+                9 => h = format!("{}x", h),   // one character too many
                 0 => {
                     // one hex digit changed
                     let pos = rng.below(h.len());
